@@ -1,0 +1,29 @@
+//go:build verif
+
+// Contracts for the deductive verifier in /verif (govc). This file contains comments
+// only; it is compiled only with the build tag "verif" and then adds nothing but the
+// package clause.
+
+package common
+
+// SortPriorities is a closure over sort.SliceStable: its contract is assumed, not proved
+// (DESIGN.md §6.3): the result is a permutation of the argument, sorted from highest to lowest.
+//@ func SortPriorities
+//@   trusted
+//@   modifies elems(priorities)
+//@   ensures forall a, b :: 0 <= a && a < b && b < len(priorities) ==> priorities[a] >= priorities[b]
+//@   ensures forall a :: 0 <= a && a < len(priorities) ==> (exists b :: 0 <= b && b < len(priorities) && priorities[a] == old(priorities[b]))
+//@   ensures forall b :: 0 <= b && b < len(priorities) ==> (exists a :: 0 <= a && a < len(priorities) && priorities[a] == old(priorities[b]))
+//@   ensures (forall a, b :: 0 <= a && a < b && b < len(priorities) ==> old(priorities[a]) != old(priorities[b])) ==> (forall a, b :: 0 <= a && a < b && b < len(priorities) ==> priorities[a] != priorities[b])
+
+//@ func IsDistributionFilled
+//@   ensures [* C15 C18] result <==> (forall k :: dom(distribution, k) ==> distribution[k] != 0)
+//@   loop 0
+//@     invariant [*] forall k :: in($visited, k) ==> distribution[k] != 0
+
+//@ func SumPriorities
+//@   requires [*] lsum(priorities, len(priorities)) < two64
+//@   ensures [* C14] result == lsum(priorities, len(priorities))
+//@   assume-arith add-overflow[0]
+//@   loop 0
+//@     invariant [*] sum == lsum(priorities, $i)
